@@ -190,6 +190,12 @@ def modelLine (s : MState) (line : String) : MState :=
   | ["inc", b, n] => match unbr b, unbr n with
     | some b, some n => s.emit (.call "include" "-" [b, n] :: includeEvents b n)
     | _, _ => bad
+  | ["inca", b, n] => match unbr b, unbr n with       -- `#include <name>`: handled exactly like "name"
+    | some b, some n => s.emit (.call "include" "-" [b, n] :: includeEvents b n)
+    | _, _ => bad
+  | ["incm", b, n] => match unbr b, unbr n with       -- `#include MACRO` with MACRO = "name"
+    | some b, some n => s.emit (.call "include" "-" [b, n] :: includeEvents b n)
+    | _, _ => bad
   | ["inh", b, n] => match unbr b, unbr n with
     | some b, some n => s.emit (.call "inherit" "-" [b, n] :: inheritEvents b n)
     | _, _ => bad
